@@ -116,6 +116,13 @@ Family(k) ==
       shared == {Case(k, "shared-zero", Base(k, B, "full", Pos(k, j) :> ZeroScalar(Schema[k].params[j]))) :
                    j \in {m \in UNION {Group(k, b) : b \in Shared(k)} : Zeroable(Schema[k].params[m])}}
       sharedOnly == {Case(k, "shared-alone", Base(k, {b}, "min", none)) : b \in Shared(k)}
+      \* a bit carried by a `true` flag and by value fields: with the flag set and the value fields zero the group is present
+      \* (the flag is one of its fields), so the zero values travel
+      trueZero == {Case(k, "true-shared-zero", Base(k, {b}, "min",
+                      [q \in {Pos(k, j) : j \in {m \in Group(k, b) : Zeroable(Schema[k].params[m])}} |->
+                         LET j == CHOOSE m \in Group(k, b) : Pos(k, m) = q IN ZeroScalar(Schema[k].params[j])])) :
+                     b \in {x \in B : Group(k, x) # {} /\ (\E m \in Group(k, x) : Zeroable(Schema[k].params[m]))
+                                        /\ \E j \in DataIdx(k) : Schema[k].params[j].bit = x /\ Schema[k].params[j].base = "true"}}
       emptyvec == {Case(k, "empty-vector", Base(k, {Schema[k].params[j].bit}, "min", Pos(k, j) :> [k |-> "vec", e |-> <<>>])) : j \in CondVecs(k)}
       alone == IF Selected(k) THEN {Case(k, "only-bit", Base(k, {b}, "full", none)) : b \in B}
                                    \cup {Case(k, "without-bit", Base(k, B \ {b}, "full", none)) : b \in B} ELSE {}
@@ -137,7 +144,7 @@ Family(k) ==
       \* must not be disturbed by the writing of the inner ones
       nested == {Case(k, "nested-vectors", Base(k, B, "full", Pos(k, j) :> [k |-> "vec", e |-> [i \in 1..3 |-> InnerWithVec(Schema[k].params[j].base, i)]])) :
                    j \in {m \in VecObjParams(k) : CtorsWithVec(Schema[k].params[m].base) # {}}}
-  IN basic \cup shared \cup sharedOnly \cup emptyvec \cup alone \cup strs \cup scal \cup enums \cup nested
+  IN basic \cup shared \cup sharedOnly \cup trueZero \cup emptyvec \cup alone \cup strs \cup scal \cup enums \cup nested
 
 \* strings at and beyond the format's limits: one string carrier and one bytes carrier
 HasStr(k, base) == \E m \in StrParams(k) : Schema[k].params[m].base = base
